@@ -126,15 +126,46 @@ func runC01(r *Run, p *Prog) {
 					r.Ob("R3", shortName(f), "final reply (continues not set)", site.Pos(), ok,
 						"a reply without the continues member is sent on a path where the handler's Continues flag may be set: the client would take a non-final reply for the last one")
 				default:
-					isConstTrue := false
-					if k, ok := cont[0].(*ssa.Const); ok && constTerm(k) == "const:true" {
-						isConstTrue = true
+					// flow-sensitive: each store that can set the member is reached only with More established; paths
+					// to the send that pass no such store send continues=false and need Continues == false
+					var contStores []ssa.Instruction
+					for _, ref := range *rep.Referrers() {
+						if fa, ok := ref.(*ssa.FieldAddr); ok && fieldName(fa.X, fa.Field) == "Continues" {
+							for _, r2 := range *fa.Referrers() {
+								if st, ok := r2.(*ssa.Store); ok && st.Addr == ssa.Value(fa) {
+									contStores = append(contStores, st)
+								}
+							}
+						}
 					}
-					ok, w := mustCross(T, f, nil, atSite, nil, func(fs []Fact) bool {
-						return moreTrue(fs) || (!isConstTrue && callFlagFact(fs, ".Continues", false))
+					isContStore := func(i ssa.Instruction) bool {
+						for _, st := range contStores {
+							if st == i {
+								return true
+							}
+						}
+						return false
+					}
+					for _, sti := range contStores {
+						st := sti.(*ssa.Store)
+						isConstTrue := false
+						if k, ok := st.Val.(*ssa.Const); ok {
+							if constTerm(k) == "const:false" {
+								continue
+							}
+							isConstTrue = constTerm(k) == "const:true"
+						}
+						ok, w := mustCross(T, f, nil, func(i ssa.Instruction) bool { return i == sti }, nil, func(fs []Fact) bool {
+							return moreTrue(fs) || (!isConstTrue && callFlagFact(fs, ".Continues", false))
+						})
+						r.Ob("R3", shortName(f), "a continues reply is sent only for a call that set more", st.Pos(), ok,
+							"a reply with continues=true can reach the write helper on a path that never established In.More == true", witnessPos(p, w)...)
+					}
+					reach, w := reachInstr(f, nil, atSite, isContStore, func(a, b *ssa.BasicBlock) bool {
+						return callFlagFact(T.edgeFactsOn(a, b), ".Continues", false)
 					})
-					r.Ob("R3", shortName(f), "a continues reply is sent only for a call that set more", site.Pos(), ok,
-						"a reply with continues=true can reach the write helper on a path that never established In.More == true", witnessPos(p, w)...)
+					r.Ob("R3", shortName(f), "final reply (continues not set)", site.Pos(), isErr || !reach,
+						"a reply without the continues member is sent on a path where the handler's Continues flag may be set: the client would take a non-final reply for the last one", witnessPos(p, w)...)
 				}
 			}
 			// refusal edge: Continues == true and More == false
